@@ -482,19 +482,20 @@ class ASTTypeBuilder:
         )
 
         # has to be lazy to support cyclic definition
+        def extend_field(f):
+            extended_type = self.extend_type(f.type)
+            return InputField(
+                f.name,
+                extended_type,
+                default_value=self._extend_default_value(f, extended_type),
+                description=f.description,
+                node=f.node,
+                python_name=f.python_name,
+            )
+
         def fields():
             field_names = set(f.name for f in input_object_type.fields)
-            extended = [
-                InputField(
-                    f.name,
-                    self.extend_type(f.type),
-                    default_value=f._default_value,
-                    description=f.description,
-                    node=f.node,
-                    python_name=f.python_name,
-                )
-                for f in input_object_type.fields
-            ]
+            extended = [extend_field(f) for f in input_object_type.fields]
 
             for extension_node in extensions:
                 for ext_field in extension_node.fields:
@@ -505,7 +506,11 @@ class ASTTypeBuilder:
                             [ext_field],
                         )
                     field_names.add(ext_field.name.value)
-                    extended.append(self._build_input_field(ext_field))
+                    # The new field can refer to types that are being extended
+                    # as well (including this one).
+                    extended.append(
+                        extend_field(self._build_input_field(ext_field))
+                    )
 
             return extended
 
@@ -529,11 +534,21 @@ class ASTTypeBuilder:
             nodes=scalar_type.nodes + extensions,  # type: ignore
         )
 
+    def _extend_default_value(self, input_value, extended_type):
+        # Defaults written in the SDL are coerced again against the extended
+        # type so that they see the input fields (and their defaults) added
+        # by extensions.
+        node = input_value.node
+        if node is not None and node.default_value is not None:
+            return value_from_ast(node.default_value, extended_type)
+        return input_value._default_value
+
     def _extend_argument(self, argument: Argument) -> Argument:
+        extended_type = self.extend_type(argument.type)
         return Argument(
             argument.name,
-            self.extend_type(argument.type),
-            default_value=argument._default_value,
+            extended_type,
+            default_value=self._extend_default_value(argument, extended_type),
             description=argument.description,
             node=argument.node,
             python_name=argument.python_name,
